@@ -571,11 +571,11 @@ fn gen_part2(thorough: bool, rng: &mut Rng, out: &mut dyn FnMut(String), enum_ki
         let nd = g[0].len() as isize;
         let arrs: Vec<(String, bool)> = g.iter().map(|s| {
             let n: usize = s.iter().product();
-            let small = n <= if thorough { 1600 } else { 250 };
+            let small = n <= if thorough { 700 } else { 250 };
             let spec = format!("G{}.{}.{}:{}", gi % 2, rng.next() % 100000, [3, 100, 1, 9][gi % 4], show_list(s));
-            if small { let v = gen_values(spec.split(':').next().unwrap(), n).unwrap(); (lane_ty(TYS[gi % 5], s, &v, 1), true) } else { (spec, false) }
+            if small { let v = gen_values(spec.split(':').next().unwrap(), n).unwrap(); (lane_ty(if TYS[gi % 5] == "f64" { "f64" } else { "i64" }, s, &v, 1), true) } else { (spec, false) }
         }).collect();
-        let ty = TYS[gi % 5];
+        let ty = if TYS[gi % 5] == "str" && g.iter().any(|s| s.iter().product::<usize>() > 64) { "i64" } else { TYS[gi % 5] };
         for a in 0..nd {
             k += 1;
             if g.iter().any(|s| s.iter().product::<usize>() > 600) && a != gi as isize % nd { continue; }
@@ -647,7 +647,8 @@ fn gen_part2(thorough: bool, rng: &mut Rng, out: &mut dyn FnMut(String), enum_ki
     // ---- (8a) exact values: strictly descending runs closed by one element that is not smaller (whole lane below 32 elements, every
     //      aligned run of the run-merging sort above), every length 2..=130 (thorough ..=300) and the lengths around the run sizes
     let mut lens: Vec<usize> = (2..=(if thorough { 300 } else { 130 })).collect();
-    lens.extend([255usize, 256, 257, 511, 512, 513, 528, 1000, 1001]);
+    lens.extend([255usize, 256, 257]);
+    if thorough { lens.extend([511usize, 512, 513, 528, 1000, 1001]); }
     for &n in &lens {
         for bump in 0..3 {
             let v = descending_runs(n, bump);
@@ -667,10 +668,10 @@ fn gen_part2(thorough: bool, rng: &mut Rng, out: &mut dyn FnMut(String), enum_ki
     }
     // ---- (8b) exact lengths: EVERY lane length 1..300 in the trailing position ([2,d], both axes) and in an inner position ([3,d,2]).
     //      The model answers the lengths up to 48 and a selection above (it needs ~d^2 per axis call), the native reference all of them.
-    let model_len = |d: usize| d <= 48 || [49, 50, 64, 97, 100, 128, 129, 200, 256, 257, 300].contains(&d) || (thorough && d % 3 == 0);
+    let model_len = |d: usize| d <= 48 || [49, 50, 64, 97, 100, 128, 129, 200, 256, 257, 300].contains(&d) || (thorough && d % 6 == 0);
     for d in 1..=300usize {
         k += 1;
-        let ty = TYS[d % 5];
+        let ty = if d <= 20 { TYS[d % 5] } else { ["i64", "u8", "f64", "i8"][d % 4] };
         let two = format!("G{}.{}.{}:2,{d}", d % 3, rng.next() % 100000, [2, 100, 7][d % 3]);
         let three = format!("G{}.{}.{}:3,{d},2", (d + 1) % 3, rng.next() % 100000, [100, 3, 9][d % 3]);
         for (spec, shape, axes) in [(&two, vec![2, d], vec!["1", "0", "-1"]), (&three, vec![3, d, 2], vec!["1", "-2"])] {
@@ -703,30 +704,44 @@ fn gen_part2(thorough: bool, rng: &mut Rng, out: &mut dyn FnMut(String), enum_ki
     //      spelled with distinct-ish values (pattern 1 / 2 with hi = 100 would give many repeats: the crate's quicksort is quadratic
     //      on repeats), so long lanes use sort kinds merge / heap / stable and argmax / argmin only up to 5000-element lanes.
     let mut huge: Vec<(Vec<usize>, Vec<&str>)> = vec![
-        (vec![16, 32, 40], vec!["2", "-1", "1", "0"]), (vec![4, 8, 16, 40], vec!["3", "-1", "1", "-4"]), (vec![3, 60, 70], vec!["1", "-2", "0", "2"]),
-        (vec![26, 26, 26], vec!["-1", "1", "0"]), (vec![2, 3, 5, 7, 11, 13], vec!["5", "-1", "2", "0"]),
-        (vec![130, 130], vec!["0", "1"]), (vec![129, 131], vec!["-1", "-2"]), (vec![100, 200], vec!["1"]), (vec![2, 8200], vec!["1", "0"]), (vec![8200, 2], vec!["0", "-1"]),
-        (vec![16385], vec!["0"]), (vec![33000], vec!["none"]), (vec![2, 70000], vec!["1"]), (vec![70000, 2], vec!["0"]), (vec![40, 30, 30], vec!["2", "0"]),
-        (vec![10, 11, 12, 13], vec!["3", "1"]), (vec![5, 4, 10, 10, 10], vec!["4", "2", "0"]), (vec![300, 300], vec!["1", "0"])];
-    if thorough { huge.extend([(vec![70000], vec!["0", "none"]), (vec![140001], vec!["-1"]), (vec![7, 131, 151], vec!["2", "1", "0"]), (vec![1, 66000, 2, 1], vec!["1"]), (vec![3, 5, 7, 11, 13, 2], vec!["4", "-1", "0"]), (vec![100, 200], vec!["0"])]); }
+        (vec![16, 32, 40], vec!["2", "-1", "1", "0"]), (vec![4, 8, 16, 40], vec!["3", "1"]), (vec![3, 60, 70], vec!["1", "-2", "0", "2"]),
+        (vec![26, 26, 26], vec!["-1", "0"]), (vec![2, 3, 5, 7, 11, 13], vec!["5", "2"]),
+        (vec![130, 130], vec!["0", "1"]), (vec![129, 131], vec!["-1"]), (vec![100, 200], vec!["1"]), (vec![2, 8200], vec!["1", "0"]), (vec![8200, 2], vec!["0", "-1"]),
+        (vec![16385], vec!["0"]), (vec![33000], vec!["none"]), (vec![2, 70000], vec!["1"]), (vec![70000, 2], vec!["0"]), (vec![40, 30, 30], vec!["2"]),
+        (vec![10, 11, 12, 13], vec!["1"]), (vec![5, 4, 10, 10, 10], vec!["4", "0"]), (vec![300, 300], vec!["1", "0"])];
+    if thorough { huge.extend([(vec![70000], vec!["0", "none"]), (vec![140001], vec!["-1"]), (vec![7, 131, 151], vec!["2", "1"]), (vec![1, 66000, 2, 1], vec!["1"]), (vec![3, 5, 7, 11, 13, 2], vec!["4", "-1", "0"]), (vec![100, 200], vec!["0"]),
+        (vec![4, 8, 16, 40], vec!["-1", "-4"]), (vec![26, 26, 26], vec!["1"]), (vec![2, 3, 5, 7, 11, 13], vec!["-1", "0"]), (vec![129, 131], vec!["-2"]), (vec![40, 30, 30], vec!["0"]), (vec![10, 11, 12, 13], vec!["3"]), (vec![5, 4, 10, 10, 10], vec!["2"])]); }
     for (hi, (s, axes)) in huge.iter().enumerate() {
         let n: usize = s.iter().product();
         for (ai, ax) in axes.iter().enumerate() {
             k += 1;
             let lane = match ax.parse::<isize>() { Ok(a) => s[(if a < 0 { a + s.len() as isize } else { a }) as usize], Err(_) => n };
-            let ty = if lane > 5000 { ["i64", "f64"][k % 2] } else { TYS[(hi + ai) % 5] };
-            let reps = if thorough { 2 } else { 1 };
+            // (String arrays are slow in the crate: seconds per call at 20 000 elements)
+            let ty = if lane > 5000 { ["i64", "f64"][k % 2] } else { ["i64", "u8", "f64", "i8"][(hi + ai) % 4] };
+            let reps = 1;
             for r in 0..reps {
                 let (p, top) = if lane > 5000 { (1, 1000000) } else { ([0usize, 1, 4, 2][(k + r) % 4], [100, 3, 100, 50][(k + r) % 4]) };
                 let a = format!("G{p}.{}.{top}:{}", rng.next() % 100000, show_list(s));
                 if lane > 5000 {
                     for kd in ["e:Mergesort", "e:Heapsort", "e:Stable"] { if thorough || kd != "e:Heapsort" { out(format!("tsort {ty}:b {a} {ax} {kd} ref")); } }
-                } else {
+                } else if thorough {
                     for kd in enum_kinds { out(format!("tsort {ty}:b {a} {ax} {kd} ref")); }
                     out(format!("tsort {ty}:r {a} {ax} s:{} ref", hex(["STABLE", "MergeSort", "quicksort", "Heapsort"][k % 4])));
                     // (the crate's argsort is cubic in the lane length)
                     if lane <= 600 { out(format!("targsort {ty}:b {a} {ax} {} ref", enum_kinds[k % 4])); }
                     for kd in keeps { out(format!("targmax {ty}:b {a} {ax} {kd} ref")); out(format!("targmin {ty}:b {a} {ax} {kd} ref")); }
+                } else {
+                    // quick tier: two kinds + one spelled selector on the chained receiver, one ranking, one extreme query each way;
+                    // more than 4000 lanes (the crate's lane splitting is quadratic in their number): one sort and one query
+                    let many = n / lane.max(1) > 4000;
+                    out(format!("tsort {ty}:b {a} {ax} {} ref", enum_kinds[k % 4]));
+                    out(format!("targmax {ty}:b {a} {ax} {} ref", keeps[k % 3]));
+                    if !many {
+                        out(format!("tsort {ty}:b {a} {ax} {} ref", enum_kinds[(k + 1) % 4]));
+                        out(format!("tsort {ty}:r {a} {ax} s:{} ref", hex(["STABLE", "MergeSort", "quicksort", "Heapsort"][k % 4])));
+                        if lane <= 600 { out(format!("targsort {ty}:b {a} {ax} {} ref", enum_kinds[(k + 2) % 4])); }
+                        out(format!("targmin {ty}:b {a} {ax} {} ref", keeps[(k + 1) % 3]));
+                    }
                 }
             }
         }
